@@ -20,8 +20,8 @@ M = 18
 BTN = ["A_INT32", "A_UINT32"]
 
 
-def gen_layer(rng):
-    n = rng.choice([1, 2, 3, 4])
+def gen_layer(rng, dup=False):
+    n = rng.choice([2, 3, 4]) if dup else rng.choice([1, 2, 3, 4])
     svcs = []
     used = set()
     for i in range(n):
@@ -30,21 +30,23 @@ def gen_layer(rng):
             if pre not in used:
                 used.add(pre)
                 break
+        if dup and i > 0 and rng.random() < 0.6:
+            pre = rng.choice(sorted(used - {pre}))  # several services with one constant request prefix
         rq = [dict(name="sid", kind="coded", bytepos=0, bl=8, value=pre[0], semantic="SERVICE-ID", bt=1),
               dict(name="sub", kind="coded", bytepos=1, bl=8, value=pre[1], semantic=None, bt=1)]
         for k in range(rng.choice([0, 1, 2])):
-            rq.append(dict(name=f"arg{k}", kind="value", bytepos=2 + 2 * k, dop=rng.choice(["dopA", "dopB"]),
+            rq.append(dict(name=f"arg{k}", kind="value", bytepos=rng.choice([2 + 2 * k, 2 + 2 * k, None]), dop=rng.choice(["dopA", "dopB"]),
                            semantic=rng.choice([None, "DATA"])))
         pr = [dict(name="sid", kind="coded", bytepos=0, bl=8, value=(pre[0] + 0x40) & 0xFF, semantic=None, bt=1)]
         for k in range(rng.choice([0, 1])):
-            pr.append(dict(name=f"res{k}", kind="value", bytepos=1 + 2 * k, dop=rng.choice(["dopA", "dopB"]), semantic=None))
+            pr.append(dict(name=f"res{k}", kind="value", bytepos=rng.choice([1 + 2 * k, None]), dop=rng.choice(["dopA", "dopB"]), semantic=None))
         svcs.append(dict(name=f"svc{i}", rq=rq, pr=pr))
-    return dict(services=svcs, ndops=2)
+    return dict(services=svcs, ndops=2, dup=dup)
 
 
 def x_param(p):
     sem = "" if p["semantic"] is None else f' SEMANTIC="{p["semantic"]}"'
-    pos = f"<BYTE-POSITION>{p['bytepos']}</BYTE-POSITION>"
+    pos = "" if p["bytepos"] is None else f"<BYTE-POSITION>{p['bytepos']}</BYTE-POSITION>"
     if p["kind"] == "coded":
         return (f'<PARAM{sem} xsi:type="CODED-CONST"><SHORT-NAME>{p["name"]}</SHORT-NAME>{pos}<CODED-VALUE>{p["value"]}</CODED-VALUE>'
                 f'<DIAG-CODED-TYPE BASE-DATA-TYPE="{BTN[p["bt"]]}" xsi:type="STANDARD-LENGTH-TYPE"><BIT-LENGTH>{p["bl"]}</BIT-LENGTH>'
@@ -97,7 +99,10 @@ def edits(rng, L):
         out.append(("rename", e, dict(renamed=[[s["name"] + "_renamed", s["name"]]])))
         for which in ("rq", "pr"):
             for j, p in enumerate(s[which]):
-                attrs = [("bytepos", p["bytepos"] + 5, "Byte position"), ("semantic", "CHANGED", "Semantic")]
+                attrs = [("bytepos", (p["bytepos"] or 0) + 5, "Byte position"), ("semantic", "CHANGED", "Semantic")]
+                if j > 0:
+                    # an unspecified position (directly behind the predecessor) is not position 0
+                    attrs.append(("bytepos", 0 if p["bytepos"] is None else None, "Byte position"))
                 if p["kind"] == "coded":
                     attrs += [("bl", 16, "Bit Length")]
                     if p["value"] < 128:
@@ -153,7 +158,7 @@ def main(argv=None):
         layers.append((rp["old"], [("replay", rp["new"], rp.get("expect", {}))]))
     else:
         for _ in range(12 if quick else 120):
-            base, es = edits(rng, gen_layer(rng))
+            base, es = edits(rng, gen_layer(rng, dup=(_ % 3 == 2)))
             if quick and len(es) > 30:
                 es = es[:8] + rng.sample(es[8:], 22)
             layers.append((base, [("self", copy.deepcopy(base), dict())] + es))
@@ -189,7 +194,14 @@ def main(argv=None):
                 # a changed request prefix is reported as new + deleted (documented TODO of the tool)
                 prefix_edit = label.startswith("change-") and exp.get("param") in ("sid", "sub") and label in (
                     "change-bytepos", "change-bl", "change-value", "change-bt")
-                if not prefix_edit:
+                # deleting one of several services with the same request prefix cannot be told from a
+                # rename by the tool's duck typing (documented design): compared with the model only
+                twin_delete = label == "delete" and any(
+                    [p["value"] for p in sv["rq"][:2]] == [p["value"] for p in o["rq"][:2]]
+                    for o in base["services"] if o["name"] in exp["deleted"] for sv in new["services"])
+                if twin_delete:
+                    ck.hist("edit", "delete-with-twin(model only)")
+                if not prefix_edit and not twin_delete:
                     ck.violation(f"edit '{label}' of {exp} is reported as {got}", rep)
                     continue
             elif label.startswith("change-") and exp["prop"] not in r["props"]:
